@@ -60,7 +60,24 @@ def parts():
     return out
 
 
-PARTS = parts()
+def combined_parts():
+    """Parts whose key / index / value condition is a combination of two leaves - also of the same class and callable with
+    different arguments (both must survive serialisation) - built by the real operators."""
+    from contracts.serial import DslTree
+    K, V, I = cnds.Key, cnds.Value, cnds.Index
+    kk = lambda op: DslTree(op, DslLeaf(K, "not_equal_to", [Scalar()]), DslLeaf(K, "not_equal_to", [Scalar()]))
+    vv = lambda op: DslTree(op, DslLeaf(V, "not_equal_to", [Scalar()]), DslLeaf(V, "not_equal_to", [Scalar()]))
+    ii = lambda op: DslTree(op, DslLeaf(I, "not_equal_to", [Scalar()]), DslLeaf(I, "not_equal_to", [Scalar()]))
+    vw = lambda op: DslTree(op, DslLeaf(V, "less_than", [Scalar()]), DslLeaf(cnds.ValueLength, "equal_to", [Scalar()]))
+    out = []
+    for op in "&|":
+        out += [ApiPart(MapValue, {"key": kk(op)}), ApiPart(MapValue, {"value": vv(op)}), ApiPart(ListValue, {"index": ii(op)}),
+                ApiPart(ListValue, {"value": vw(op), "label": Scalar()}), ApiPart(MapValue, {"key": kk(op), "value": vv("&")}),
+                ApiPart(MapOrListValue, {"value": vv(op)})]
+    return out
+
+
+PARTS = parts() + combined_parts()
 
 contract(
     "valida.datapath:ContainerValue.to_spec",
